@@ -3310,7 +3310,11 @@ impl Bindgen for FunctionBindgen<'_, '_> {
                     let name = self.r#gen.r#gen.type_name(&Type::Id(*ty));
                     let op0 = &operands[0];
                     let op1 = &operands[1];
-                    results.push(format!("(({name}) ({op0})) | ((({name}) ({op1})) << 32)"));
+                    // The operands are `int32_t`: go through `uint32_t` so that bit 31 of
+                    // the low word is not sign-extended into the high word.
+                    results.push(format!(
+                        "(({name}) (uint32_t) ({op0})) | ((({name}) (uint32_t) ({op1})) << 32)"
+                    ));
                 }
             },
 
